@@ -2,9 +2,11 @@
    PARTIAL: the model covers what the capture plugin does to descriptors 0-2, the Python stream
    objects and the number of open descriptors; working directory, warning filters, debugger
    hook and the registry of pending task functions are covered by the correspondence check
-   only. The module cache of the interpreter (second in-process build of a project with @task
-   functions collects nothing, F11) is a known finding outside the model. *)
+   only. The module cache of the interpreter is modelled in Model/Session.v: in-process builds
+   collect what fresh processes collect unless a task file declares tasks with @task (F11,
+   known, refuted below). *)
 From Verif Require Import Base.Prelude Base.Pluggy Model.Capture Proofs.CaptureProofs Proofs.FactsHooks Gen.HookFacts.
+From Verif Require Import Model.Clean Model.Collect Model.Session Proofs.SessionProofs.
 
 (* the capture plugin implements pytask_unconfigure (extracted fact), hence: *)
 Theorem C15_build_restores_process : forall m p, build_p x_capture_stops m p = p.
@@ -25,7 +27,32 @@ Theorem C15_without_unconfigure_descriptors_leak : forall n p,
   nfds (builds false (repeat MFd n) p) = (nfds p + 6 * n)%nat.
 Proof. exact leak_grows_with_builds. Qed.
 
+(* "consecutive builds in one process give the same outcomes as builds in separate processes":
+   what is collected, file by file, for any sequence of builds over any file sets, any derived
+   module names, files whose import fails included - provided no file registers tasks through
+   @task while it is imported *)
+Theorem C15_inprocess_equals_fresh : forall is_pkg src bs m,
+  cache_ok src m -> (forall ps, In ps bs -> no_decorated src ps) ->
+  run_builds is_pkg src m bs = fresh_builds is_pkg src bs.
+Proof. exact inprocess_equals_fresh. Qed.
+
+(* F11 (known): with @task the second build collects nothing *)
+Theorem C15_decorated_second_build_refuted :
+  run_builds (fun _ => false) (fun _ => MOk 0 1) [] [[p_dec]; [p_dec]] = [[RTasks 1]; [RTasks 0]] /\
+  fresh_builds (fun _ => false) (fun _ => MOk 0 1) [[p_dec]; [p_dec]] = [[RTasks 1]; [RTasks 1]].
+Proof. exact decorated_second_build_refuted. Qed.
+
+(* F20 (repaired): a failing import used to be an error once and silence afterwards *)
+Theorem C15_broken_import_regression :
+  (let '(x1, m1) := collect_file_old (fun _ => false) (fun _ => MBroken) [] p_dec in
+   (x1, fst (collect_file_old (fun _ => false) (fun _ => MBroken) m1 p_dec))) = (RError, RTasks 0) /\
+  run_builds (fun _ => false) (fun _ => MBroken) [] [[p_dec]; [p_dec]] = [[RError]; [RError]].
+Proof. exact broken_import_regression. Qed.
+
 Print Assumptions C15_build_restores_process.
 Print Assumptions C15_builds_restore_process.
 Print Assumptions C15_without_unconfigure_stdin_is_lost.
 Print Assumptions C15_without_unconfigure_descriptors_leak.
+Print Assumptions C15_inprocess_equals_fresh.
+Print Assumptions C15_decorated_second_build_refuted.
+Print Assumptions C15_broken_import_regression.
